@@ -74,6 +74,19 @@ def run(repo, rep, tier):
     L.innermost_rule(repo, rep, "R10.4", ("chameleon.compiler.Compiler",
                                             "chameleon.zpt.program.MacroProgram"),
                      only=("_translations", "_implicit_translation"))
+    pr = repo.func("chameleon.zpt.template.PageTemplate.render")
+    seeds = [src(c.args[0]) for c in ast.walk(pr.node)
+             if isinstance(c, ast.Call) and src(c.func) in (
+                 "setdefault", "_kw.setdefault") and c.args]
+    rep.check("'target_language'" in seeds and "'__translate'" in seeds,
+              "R10.3", pr.qualname, "render() provides target_language "
+              "(None unless given) and the translation function to the "
+              "generated code", construct="render-seeds", where=L.where(pr),
+              detail=str(seeds))
+    # the settings an element declares apply to its content; its own
+    # statements are evaluated with the enclosing ones (C01 owns the nesting)
+    from . import c01 as _c01
+    L.borrow(repo, rep, "R10.3", "C01", _c01.order, ("order:switch>domain",))
     L.state_rule(repo, rep)
 
 
